@@ -168,7 +168,31 @@ def resolve_cfg(text: str, cfgs: dict, log: list) -> str:
                 continue
             break
         mm = re.match(r'(unsafe\s*)?\{', text[k:])
-        if mm:
+        # argument / parameter position: the nearest unmatched opener before the attribute is `(`
+        depth, b, in_args = 0, m.start() - 1, False
+        while b >= 0:
+            if text[b] in ')}]':
+                depth += 1
+            elif text[b] in '({[':
+                if depth == 0:
+                    in_args = text[b] == '('
+                    break
+                depth -= 1
+            b -= 1
+        if in_args:
+            e = k
+            while e < len(text):
+                ch = text[e]
+                if ch in '({[':
+                    e = match_brace(text, e)
+                elif ch == ',':
+                    e += 1
+                    break
+                elif ch == ')':
+                    break
+                e += 1
+            end = e
+        elif mm:
             end = match_brace(text, k + mm.end() - 1) + 1
         else:
             # statement: up to `;` at depth 0, or a trailing block expression
@@ -244,7 +268,7 @@ def extract_fn(relpath: str, container: str, name: str, cfgs=None) -> Extracted:
     ex.line = src.count('\n', 0, pos) + 1
     ex.raw = orig[pos:close + 1]
     ex.sha256 = hashlib.sha256(ex.raw.encode()).hexdigest()
-    ex.sig = ' '.join(src[pos:i].split())
+    ex.sig = ' '.join(resolve_cfg(src[pos:i], cfgs, ex.log).split())
     body = src[i:close + 1]
     body = resolve_cfg(body, cfgs, ex.log)
     nb = ATTR_RE.sub('', body)
